@@ -545,6 +545,10 @@ class Ledger:
         if k in ("arg", "local"):
             ty = fn.local_ty(e[1])
             r = TY_RANGE.get(ty.replace("&mut ", "").replace("&", ""))
+            if k == "local":
+                sd = fn.single_def(e[1])
+                if sd and sd[0] == "stmt":
+                    r = _meet(r, self.ival(fn, fn.rvalue_expr(sd[3]["r"], 8, stop={"named"}), cons, depth + 1))
         elif k == "cast":
             inner = self.ival(fn, e[3], cons, depth + 1)
             tr = TY_RANGE.get(e[2])
